@@ -286,6 +286,10 @@ def check(ctx):
     ctx.ob("C03.R4", gb, "the builder names the log-probability node '_model_log_prob'",
            names == {"_model_log_prob"}, detail=str(names))
 
+    # ---- shared mechanisms: the neighbour's rules run as obligations of this property
+    ctx.include("C01", "C03.R5", only=None)
+    ctx.rule("R5", "shared mechanisms, run as obligations of this property: update_state relies on the model's cache coherence (C01): no value survives from an earlier call.")
+
 
 def _norm_body(fnode):
     body = [s for s in fnode.body if not (isinstance(s, ast.Expr) and isinstance(
